@@ -464,6 +464,31 @@ func TestC07(t *testing.T) {
 		if perr != nil || ra != 1 || rb != 2 {
 			rep.Violate("C07/same-type-second-variable", fmt.Sprintf("a/svc.V.Do=%d (want 1), b/svc.V.Do=%d (want 2), panic %v: variables of same-named interface types in one builder", ra, rb, perr), nil)
 		}
+		// the two same-named types have the methods at different table positions: the un-mocked ones of b/svc panic
+		// properly, another of its methods can be mocked as well
+		if perr == nil {
+			for _, un := range []func(){func() { bsvc.V.Alpha() }, func() { bsvc.V.Echo("x") }, func() { bsvc.V.Name() }, func() { asvc.V.Name() }} {
+				var p interface{}
+				func() { defer func() { p = recover() }(); un() }()
+				rep.Eval(1)
+				if p == nil || !strings.Contains(fmt.Sprint(p), "not implements") {
+					rep.Violate("C07/unmocked-method-did-not-panic-properly", fmt.Sprintf("an un-mocked method of a same-named interface type: panic %v, want 'method not implements'", p), nil)
+				}
+			}
+			var p2 interface{}
+			func() {
+				defer func() { p2 = recover() }()
+				b.Interface(&bsvc.V).Method("Name").As(func(ctx *mocker.IContext) string { return "" }).Return("bn")
+				b.Interface(&asvc.V).Method("Name").As(func(ctx *mocker.IContext) string { return "" }).Return("an")
+			}()
+			an, bn := "", ""
+			func() { defer func() { recover() }(); an = asvc.V.Name() }()
+			func() { defer func() { recover() }(); bn = bsvc.V.Name() }()
+			rep.Eval(2)
+			if p2 != nil || an != "an" || bn != "bn" || asvc.V.Do(1) != 1 || bsvc.V.Do(1) != 2 {
+				rep.Violate("C07/same-type-second-variable", fmt.Sprintf("Name mocked on both same-named types: a -> %q, b -> %q (want an, bn), panic %v", an, bn, p2), nil)
+			}
+		}
 		func() { defer func() { recover() }(); b.Reset() }()
 		asvc.V, bsvc.V = nil, nil
 	}
